@@ -32,6 +32,7 @@ type Contract struct {
 	Ensures  []NamedExpr
 	Loops    map[int][]NamedExpr // loop ordinal (1-based, source order of headers) -> invariants
 	LoopMods map[int][]string
+	LoopAxioms map[int][]NamedExpr
 	Pure     bool
 	Modifies []string // state-variable name prefixes the function may modify
 	NoPanic  bool
@@ -317,6 +318,17 @@ func (db *ContractDB) directive(c *Contract, body, file string, ln int) error {
 				return err
 			}
 			c.Loops[n] = append(c.Loops[n], ne)
+		case "axiom":
+			// a definitional axiom that mentions a variable computed before the loop
+			// (assumed at the loop header, listed as an assumption)
+			ne, err := mk(after, fmt.Sprintf("la%d", len(c.LoopAxioms[n])+1))
+			if err != nil {
+				return err
+			}
+			if c.LoopAxioms == nil {
+				c.LoopAxioms = map[int][]NamedExpr{}
+			}
+			c.LoopAxioms[n] = append(c.LoopAxioms[n], ne)
 		case "modifies":
 			c.LoopMods[n] = append(c.LoopMods[n], strings.Fields(after)...)
 		default:
